@@ -360,8 +360,8 @@ SS_RULE11 = ('the same tapes with erase(pos)/erase(range)/erase-while-iterating 
              'mutating ops with the set in large state or changing state inside a call; distinct = trace hash')
 
 
-BFS_CONFIGS = ['ss_1_less_stdset_i32_std', 'ss_2_greater_flatvec_i32_amc', 'ss_3_less_stdset_ntr_std', 'ss_2_stateful_flatvec_ntr_std', 'ss_3_coarse_flatsv_i32_std',
-               'ss_1_coarse_stdset_tr_std', 'ss_3_less_stdset_mo_std', 'ss_2_less_flatvec_mo_amc']
+BFS_CONFIGS = ['ss_1_less_stdset_i32_std', 'ss_2_greater_flatvec_i32_amc', 'ss_2_stateful_flatvec_ntr_std', 'ss_1_coarse_stdset_tr_std', 'ss_3_less_stdset_ntr_std', 'ss_3_coarse_flatsv_i32_std',
+               'ss_3_less_stdset_mo_std', 'ss_2_less_flatvec_mo_amc']
 BFS_RULE = ('breadth-first search over the abstract states (content subset of k=N+2 keys, inline|large, content of the harness node handle) of slot 0 for 8 '
             'configurations (N in {1,2,3}, std::set and FlatSet backings, int/TR/NTR/move-only elements) with the other operands empty or prepared (an inline '
             'set, a large set, a sibling of another N and comparator); from the shortest tape of every reachable state every operation of the alphabet is '
